@@ -93,6 +93,7 @@ def run(model: Model, rep: Report) -> None:
 
     _plane(model, rep)
     _getrange_clamp(model, rep)
+    find_readonly_rule(model, rep, "C20-R10")
     seq_writers_rule(model, rep)
 
 
@@ -314,8 +315,8 @@ def drange_rule(model: Model, rep: Report, rid: str) -> None:
     r5.check(ok_lo and ok_up, site(dr, ret), dr.qualname, "range(floor(v0) // d, floor(v1 + d) // d)", why=f"returns `{unparse(ret.value)}`: the last (or first) cell of an interval is left out for some coordinates, so an object lying in it is never found")
 
 
-def _getrange_clamp(model: Model, rep: Report) -> None:
-    r8 = rep.rule("C20-R8", "NORMFORM", "Plane._getrange clamps each coordinate of the query with the plane's bound on the same axis and side", 4)
+def _getrange_clamp(model: Model, rep: Report, rid: str = "C20-R8") -> None:
+    r8 = rep.rule(rid, "NORMFORM", "Plane._getrange clamps each coordinate of the query with the plane's bound on the same axis and side", 4)
     f = model.func("pdfminer.utils.Plane._getrange")
     pname = f.params[1] if len(f.params) > 1 else "bbox"
     al = param_unpack(f, pname)  # local -> bbox[i]
@@ -403,3 +404,25 @@ def plane_membership_rule(model: Model, rep: Report, rid: str) -> None:
     if not gens:
         iter_ok = any(isinstance(n, ast.For) and unparse(n.iter) == "self._seq" and "self._objs" in unparse(n) for n in walk_no_nested(it.node))
     r.check(iter_ok, site(it), it.qualname, "__iter__ yields self._seq filtered by membership in self._objs", why=unparse(it.node)[:120])
+
+
+def find_readonly_rule(model: Model, rep: Report, rid: str) -> None:
+    """Plane.find is a lazy generator: two queries may be consumed alternately, so whatever it uses to remember what it has
+    yielded must belong to the call - no attribute of the plane is written or mutated, directly or through a local alias."""
+    r = rep.rule(rid, "ALIAS", "Plane.find keeps its bookkeeping in the call: it neither stores into nor mutates an attribute of the plane (queries consumed alternately must not share a de-duplication set)", 1)
+    f = model.func("pdfminer.utils.Plane.find")
+    aliases = {t.id for a in walk_no_nested(f.node) if isinstance(a, ast.Assign) and isinstance(a.value, ast.Attribute) and isinstance(a.value.value, ast.Name) and a.value.value.id == "self" for t in a.targets if isinstance(t, ast.Name)}
+    MUT = {"add", "clear", "append", "extend", "remove", "discard", "pop", "update", "insert", "setdefault", "popitem", "sort"}
+    bad = []
+    for n in walk_no_nested(f.node):
+        if isinstance(n, ast.Attribute) and isinstance(n.ctx, (ast.Store, ast.Del)) and isinstance(n.value, ast.Name) and n.value.id == "self":
+            bad.append(unparse(n))
+        if isinstance(n, ast.Call) and isinstance(n.func, ast.Attribute) and n.func.attr in MUT:
+            b = n.func.value
+            if (isinstance(b, ast.Name) and b.id in aliases) or (isinstance(b, ast.Attribute) and isinstance(b.value, ast.Name) and b.value.id == "self"):
+                bad.append(unparse(n))
+        if isinstance(n, ast.Subscript) and isinstance(n.ctx, (ast.Store, ast.Del)):
+            b = n.value
+            if (isinstance(b, ast.Name) and b.id in aliases) or (isinstance(b, ast.Attribute) and isinstance(b.value, ast.Name) and b.value.id == "self"):
+                bad.append(unparse(n))
+    r.check(not bad, site(f), f.qualname, "find writes no attribute of the plane and mutates nothing reachable from one", why=f"{bad[:3]}: the object is shared by every query on this plane; a second query started before the first is exhausted clears or fills it under the first one's feet")
